@@ -99,10 +99,14 @@ CR_CLOSED = f"forall(v, implies(has({R_}, v) and CR[v], forall(k, 0, len(dval({R
 DFS_I = [f"len({V_}) >= len(reaching_states)", f"forall(a, 0, len(reaching_states), {V_}[a] == reaching_states[a])",
          distinct(V_), f"{inl('state', V_)} or {inl('state', P_)}",
          f"forall(a, 0, len({V_}), CR[{V_}[a]])", f"forall(b, 0, len({P_}), CR[{P_}[b]] and has({R_}, {P_}[b]))"]
+IN_NB = f"forall(a, 0, len({V_}), 0 <= {V_}[a] and {V_}[a] < NB)"
 contract('reverse_dfs_recursive',
-         params={'state': INT, 'reversed_transitions': DIL, 'reaching_states': LI, 'CR': AB}, ghost_params={'CR': 'CR'}, result=LI,
+         params={'state': INT, 'reversed_transitions': DIL, 'reaching_states': LI, 'CR': AB, 'NB': INT},
+         ghost_params={'CR': 'CR', 'NB': 'len(transition_list)'}, result=LI,
          locals={'rec_reaching_states': LI, 'pending_states': LI, 'current_state': INT, 'next_state': INT},
-         requires=[f"has({R_}, state)", KEYS_CLOSED, distinct('reaching_states'),
+         # NB bounds the key set of the reversed table: the search visits each key at most once, which is what makes it terminate
+         requires=["NB >= 0", f"forall(v, implies(has({R_}, v), 0 <= v and v < NB))",
+                   f"has({R_}, state)", KEYS_CLOSED, distinct('reaching_states'),
                    f"forall(a, 0, len(reaching_states), {closed_at('reaching_states', 'a', ['reaching_states'])})",
                    "CR[state]", CR_CLOSED, "forall(a, 0, len(reaching_states), CR[reaching_states[a]])",
                    f"forall(v, len(dval({R_}, v)) >= 0)"],
@@ -111,11 +115,16 @@ contract('reverse_dfs_recursive',
                   f"forall(a, 0, len(result), {closed_at('result', 'a', ['result'])})",
                   "forall(a, 0, len(result), CR[result[a]])"],
          modifies={},
-         loops={0: dict(inv=DFS_I + [f"forall(a, 0, len({V_}), {closed_at(V_, 'a', [V_, P_])})"]),
-                1: dict(inv=DFS_I + [f"forall(a, 0, len({V_}) - 1, {closed_at(V_, 'a', [V_, P_])})",
+         # termination: (number of keys not yet visited, length of the work list) decreases lexicographically; the first
+         # component is >= 0 by the pigeonhole lemma (the visited list is duplicate-free and lies in [0, NB))
+         loops={0: dict(inv=DFS_I + [f"forall(a, 0, len({V_}), {closed_at(V_, 'a', [V_, P_])})", IN_NB],
+                        ghost_decl=[('lv0', INT)], ghost_mod=[('lv0', INT)], ghost_pre=[('lv0', INT, f"len({V_})")],
+                        hint_pre=[f"len({V_}) <= NB"], use_hint_pre={0: [f"L_pigeon({V_}, len({V_}), NB)"]},
+                        decreases=[f"NB - len({V_})", f"len({P_})"]),
+                1: dict(inv=DFS_I + [IN_NB, f"len({V_}) == lv0 + 1",
+                                     f"forall(a, 0, len({V_}) - 1, {closed_at(V_, 'a', [V_, P_])})",
                                      f"len({V_}) >= 1", f"current_state == {V_}[len({V_}) - 1]", f"has({R_}, current_state)", "CR[current_state]",
-                                     f"forall(k, 0, _i1, {inl(f'dval({R_}, current_state)[k]', V_)} or {inl(f'dval({R_}, current_state)[k]', P_)})"])},
-         termination_unproved=True)
+                                     f"forall(k, 0, _i1, {inl(f'dval({R_}, current_state)[k]', V_)} or {inl(f'dval({R_}, current_state)[k]', P_)})"])})
 
 # ---- reverse_dfs: sorted, each once, exactly the non-final states that can reach a final state
 TLr = "transition_list"
